@@ -93,3 +93,72 @@ def c12_1(run):
     if not n_ok:
         raise Inconclusive('vacuity: no committing path')
     run.require_reached(*run.cur.reach)
+
+
+@obligation('C12', 'C12-2 TakeSubmission::poll moves the whole batch out exactly once: Some(batch, payload) iff the payload is non-empty, and the accumulator is left empty')
+def c12_2(run):
+    hooks = [(re.compile(r'^Input::num_blocks$'), h_num_blocks), (re.compile(r'^Payload::num_blobs$'), lambda ctx: [(None, z3.BitVec('num_blobs', 64))]),
+             ]
+    def h_project(ctx):
+        # pin-project-lite generates `project` inside an anonymous const with the impl header in the macro crate: resolve it by signature
+        from mirsym.engine import PUSHED
+        names = [n for n in ctx.ex.fns if n.endswith('::project') and n.startswith('conversion::_::') and 'TakeSubmission' in ctx.ex.fns[n].sig]
+        if len(names) != 1:
+            raise Inconclusive(f'pin-project `project` for TakeSubmission not found: {names}')
+        ctx.ex.push(ctx.st, names[0], list(ctx.args), ctx.dest, ctx.nxt)
+        return PUSHED
+    hooks.append((re.compile(r'<impl TakeSubmission<.*>>::project$'), h_project))
+    ex = loader.load(['astria-sequencer-relayer'], hooks=hooks, scalar_types={'tendermint::block::Height': 64, 'SequencerHeight': 64})
+    cands = [n for n in ex.fns if n.endswith('::poll') and 'closure' not in n and 'TakeSubmission' in (ex.impl_self(n) or (None, ''))[1]]
+    if len(cands) != 1:
+        raise Inconclusive(f'TakeSubmission::poll not found: {cands}')
+    run.bound(batch='arbitrary accumulated batch; payload with 0 or 1 blobs', unroll='loop-free')
+    n_some = n_none = 0
+    for nblobs in (0, 1):
+        inp = Obj('relayer::write::conversion::Input'); inp.attrs['blocks'] = ('b0',) if nblobs else (); inp.attrs['tag'] = 'batch'
+        pl = B.struct(ex, 'Payload', compressed_size=z3.BitVec('compressed_size', 64), blobs=M.new_vec('Vec<Blob>', [Obj('Blob', kind='opaque') for _ in range(nblobs)])); pl.attrs['tag'] = 'payload'
+        ns = B.struct(ex, 'NextSubmission', input=inp, payload=pl)
+        opt = Obj('std::option::Option<&mut NextSubmission>'); opt.discr = 'Some'; opt.fields[('Some', 0)] = B.cell(ns)
+        take = B.struct(ex, 'TakeSubmission', inner=opt)
+        pin = Obj('Pin', kind='pin') if False else None
+        st = ex.start(cands[0], [M.pin_of(B.cell(take)) if hasattr(M, 'pin_of') else B.cell(take), B.cell(Obj('Context', kind='opaque'))])
+        for i, p in enumerate(run.explore(ex, st, allow_havoc=(r'^Arguments::|fmt::',))):
+            lab = f'[{nblobs} blobs, path {i}]'
+            if p.kind != 'return':
+                run.prove(f'no panic on the first poll {lab}', p.pc, z3.BoolVal(False), detail=p.info); continue
+            r = p.result
+            ready = r.fields[('Ready', 0)] if isinstance(r, Obj) and r.discr == 'Ready' else None
+            ns1 = ns if True else None
+            inp1 = B.fld(ex, p, p.tr(ns), 'input', 'Input'); pl1 = B.fld(ex, p, p.tr(ns), 'payload', 'Payload')
+            def empty_container(o, name, ty):
+                try:
+                    v = B.fld(ex, p, o, name, ty)
+                    return isinstance(v, Obj) and v.attrs.get('items') == []
+                except Exception:
+                    return False
+            left_empty = (isinstance(inp1, Obj) and inp1.attrs.get('tag') != 'batch' and empty_container(inp1, 'metadata', 'Vec<SubmittedMetadata>') and empty_container(inp1, 'rollup_data_for_namespace', 'HashMap')
+                          and isinstance(pl1, Obj) and pl1.attrs.get('tag') != 'payload' and empty_container(pl1, 'blobs', 'Vec<Blob>'))
+            run.sample({'blobs': nblobs, 'path': i, 'result': ready.discr if ready is not None else None, 'left_empty': bool(left_empty)})
+            claim = [z3.BoolVal(ready is not None and bool(left_empty))]
+            if ready is not None and ready.discr == 'Some':
+                n_some += 1
+                sub = ex.deref_val(p, ready.fields[('Some', 0)])
+                si = B.fld(ex, p, sub, 'input', 'Input'); sp = B.fld(ex, p, sub, 'payload', 'Payload')
+                claim.append(z3.BoolVal(nblobs > 0 and isinstance(si, Obj) and si.attrs.get('tag') == 'batch' and isinstance(sp, Obj) and sp.attrs.get('tag') == 'payload'))
+            elif ready is not None:
+                n_none += 1
+                claim.append(z3.BoolVal(nblobs == 0))
+            run.prove(f'the accumulated batch and payload are handed out together iff the payload has blobs, and the accumulator is reset to empty {lab}', p.pc, z3.And(*claim))
+    if not n_some or not n_none:
+        raise Inconclusive(f'vacuity: Some {n_some}, None {n_none}')
+    run.require_reached(*run.cur.reach)
+
+
+def _fresh_default(ctx):
+    ty = 'Input' if 'Input' in ctx.callee else 'Payload'
+    if ty == 'Payload':
+        o = B.struct(ctx.ex, 'Payload', compressed_size=z3.BitVecVal(0, 64), uncompressed_size=z3.BitVecVal(0, 64), blobs=M.new_vec('Vec<Blob>', []))
+    else:
+        o = Obj('relayer::write::conversion::Input'); o.attrs['blocks'] = ()
+    o.attrs['default'] = True
+    return o
